@@ -159,6 +159,32 @@ func (P *Prog) verifyFunctionCase(fn *ssa.Function, con *Contract, caseParam str
 	env.pol = 0
 	// vacuity: the precondition must be satisfiable
 	res.Vacuity = append(res.Vacuity, &Obligation{vc: vc, Name: res.Name + "#vacuity.pre" + vc.caseTag, Kind: "vacuity", Func: res.Name, Prefix: len(vc.out), Reach: tTrue, Goal: tFalse, Expect: "sat", Src: "precondition is satisfiable"})
+	// convention for jump-table entries (functions of type executionFunc): an entry that may change the world
+	// state (modifies ghost(stver), or no modifies clause) must either demand a non-static context
+	// (requires [notstatic], which the table must justify by flagging the entry `writes`) or prove that it
+	// leaves the state alone in a static context (ensures [static])
+	if sig := fn.Signature; sig.Params().Len() == 3 && strings.HasSuffix(sig.Params().At(1).Type().String(), "vm.EVMInterpreter") && sig.Results().Len() == 2 {
+		mayWrite := !con.HasMod
+		for _, m := range con.Modifies {
+			if strings.Contains(m.String(), "ghost(stver)") {
+				mayWrite = true
+			}
+		}
+		has := false
+		for _, r := range con.Requires {
+			if r.Label == "notstatic" {
+				has = true
+			}
+		}
+		for _, e := range con.Ensures {
+			if e.Label == "static" {
+				has = true
+			}
+		}
+		if mayWrite && !has {
+			vc.errorf("%s may change the world state but has neither 'requires [notstatic]' nor 'ensures [static]'", res.Name)
+		}
+	}
 	if con.opt("trusted") {
 		return res
 	}
